@@ -64,6 +64,10 @@ func frontCases() []frontCase {
 			"wire.go": hdr + "type Fooer interface{ Foo() }\ntype Bar struct{}\nfunc provideBar() Bar { return Bar{} }\nfunc inject() Fooer { wire.Build(provideBar, wire.Bind(new(Fooer), new(Bar))); return nil }\n"}},
 		{name: "BindWithoutProvider", fn: "wire:buildProviderMap", clause: "*", wantErr: true, files: map[string]string{
 			"wire.go": hdr + "type Fooer interface{ Foo() }\ntype Bar struct{}\nfunc (b Bar) Foo() {}\nfunc provideFooer() Fooer { return Bar{} }\nfunc inject() Fooer { wire.Build(wire.Bind(new(Fooer), new(Bar))); return nil }\n"}},
+		{name: "StructFieldCaseFold", fn: "wire:checkField", clause: "*", wantErr: true, files: map[string]string{
+			"wire.go": hdr + "type S struct {\n\tFoo int\n\tfoo string\n}\nfunc provideInt() int { return 1 }\nfunc inject() S { wire.Build(provideInt, wire.Struct(new(S), \"foo\")); return S{} }\n"}},
+		{name: "PreventTagWithOtherKeys", fn: "wire:isPrevented", clause: "*", wantErr: true, files: map[string]string{
+			"wire.go": hdr + "type S struct {\n\tA int `json:\"a\" wire:\"-\"`\n}\nfunc provideInt() int { return 1 }\nfunc inject() S { wire.Build(provideInt, wire.Struct(new(S), \"A\")); return S{} }\n"}},
 		{name: "BuildNil", fn: "wire:(*objectCache).get", clause: "nilderef#2", wantErr: true, files: map[string]string{
 			"wire.go": hdr + "func provideInt() int { return 1 }\nfunc inject() int { wire.Build(provideInt, nil); return 0 }\n"}},
 	}
